@@ -319,6 +319,55 @@ func AnalyseWith(x interface{}, flags bool) Row {
 			row.Live = false
 		}
 	}()
+	// (f) arguments that carry parameter attributes (`call void @f(i32 signext %x)`): the argument list of a call / invoke / callbr then holds an
+	// *ir.Arg wrapping the value. The value the instruction USES is the wrapped one: the view must expose a slot that HOLDS it (substituting a value
+	// through the slots of its users finds it by identity) and a write through that slot must reach the printed argument and keep the attributes
+	func() {
+		defer func() {
+			if e := recover(); e != nil {
+				row.Live = false
+			}
+		}()
+		if _, ok := t.FieldByName("Callee"); !ok {
+			return
+		}
+		inst7 := reflect.New(t)
+		var slots7 []slot
+		n7 := 0
+		fill(inst7.Elem(), "", &slots7, &n7)
+		af := inst7.Elem().FieldByName("Args")
+		if !af.IsValid() || af.Kind() != reflect.Slice || af.Type().Elem() != valueType {
+			return
+		}
+		var inner []*ir.Block
+		var wrappers []*ir.Arg
+		for i := 0; i < af.Len(); i++ {
+			b := ir.NewBlock(fmt.Sprintf("inner%d", i))
+			w := ir.NewArg(b)
+			inner = append(inner, b)
+			wrappers = append(wrappers, w)
+			af.Index(i).Set(reflect.ValueOf(w))
+		}
+		ops7 := inst7.Interface().(operander).Operands()
+		for i, b := range inner {
+			found := false
+			for _, p := range ops7 {
+				if cur, ok := (*p).(*ir.Block); ok && cur == b {
+					found = true
+					nb := ir.NewBlock(fmt.Sprintf("written%d", i))
+					*p = nb
+					// the write reaches the argument the instruction prints, and the wrapper (with its attributes) is still in place
+					w, ok := af.Index(i).Interface().(*ir.Arg)
+					if !ok || w != wrappers[i] || w.Value != value.Value(nb) {
+						row.Live = false
+					}
+				}
+			}
+			if !found {
+				row.Live = false
+			}
+		}
+	}()
 	// (e) a list-valued operand field of length ZERO next to non-empty helper lists (`call void @f() [ "deopt"(i32 %x) ]`: no arguments, but operand
 	// bundles with inputs): the view must expose every remaining slot
 	func() {
